@@ -71,9 +71,14 @@ def main(modname, tier, replay, tag="gasan", tags=None):
     tags = tags or [tag]
     for tg in tags:
         optrun.optdrv(tg)  # build once, before forking
+    conc = getattr(mod, "CONCURRENT", None)
     if replay:
         with open(replay) as fh:
             obj = verdict.unhex_json(json.load(fh))
+        if isinstance(obj["case"], dict) and obj["case"].get("phase") == "concurrent-independent-use":
+            import mtindep
+            mtindep.replay(run, obj["case"], S.counters)
+            return run.finish(10, 1, mod.RULE)
         jobs = [(modname, tier, run.seed, 0, 1, tags[0], [obj["case"]])]
     else:
         n = mod.nchunks(tier)
@@ -84,6 +89,10 @@ def main(modname, tier, replay, tag="gasan", tags=None):
             jobs += [(modname, tier, run.seed, c, n, tg, None) for c in range(share)]
     for part in optrun.pmap(_work, jobs):
         S.merge(part)
+    if conc and not replay:
+        # threads parsing / printing with their own parser objects: serial results, no data race
+        import mtindep
+        S.n += mtindep.phase(run, conc, tier, S.counters)
     for key, what, case in S.viol:
         run.violation(key, what, case)
     for r in S.inconc[:5]:
